@@ -7,7 +7,7 @@ from props.framing import (B, BLK, hlist, payload_of, well_formed_blocks, vbs_re
 ID = 'C03'
 RULE = ('record lists: single-record files of every length around 1, the 1012-byte payload boundaries and the 6000 maximum '
         '(thorough: every length 1..6000), content with 0x00/0x40 runs and embedded zero words, lists of 1..40 records, '
-        'blocked and unblocked, through VbsWriter/VbsReader and through vbs_list_to_bytes/vbs_bytes_to_list; '
+        'blocked and unblocked, through VbsWriter/VbsReader (write, write_many, both interleaved on one writer) and through vbs_list_to_bytes/vbs_bytes_to_list; '
         'non-trivial = distinct record list')
 EXHAUSTIVE = {'thorough': True}
 ASSUMPTIONS = ['records are non-empty and at most MAX_VBS_RECORD_LENGTH long (the stated domain)']
@@ -27,7 +27,7 @@ def gen(rng, tier):
         k = rng.choice([1, 2, 3, 5, 10, 40])
         cap = 6000 if k <= 3 else 1300 if k <= 10 else 300
         ls = [rng.choice([1, 2, 4, 1004, 1008, 1012, 1016, rng.randrange(1, cap + 1)]) if cap >= 1016 else rng.randrange(1, cap + 1) for _ in range(k)]
-        cases.append({'lens': ls, 'blocked': rng.random() < 0.5, 'api': rng.choice(['class', 'func', 'with']), 'seed': rng.randrange(1 << 30)})
+        cases.append({'lens': ls, 'blocked': rng.random() < 0.5, 'api': rng.choice(['class', 'func', 'with', 'mixed', 'mixed']), 'seed': rng.randrange(1 << 30)})
     return cases
 
 
@@ -49,6 +49,24 @@ def impl(case):
         if case['api'] == 'with':
             with mciipm.VbsWriter(f, blocked=blocked) as w:
                 w.write_many(rs)
+        elif case['api'] == 'mixed':
+            # write() and write_many() interleaved on one writer (header, a batch, a single record, a generator batch ...)
+            import random
+            r2 = random.Random(case['seed'] + 1)
+            w = mciipm.VbsWriter(f, blocked=blocked)
+            i = 0
+            while i < len(rs):
+                k = r2.choice([0, 1, 1, 2, 3, 7])
+                if r2.random() < 0.5:
+                    w.write(rs[i])
+                    i += 1
+                elif r2.random() < 0.5:
+                    w.write_many(rs[i:i + k])
+                    i += k
+                else:
+                    w.write_many(x for x in rs[i:i + k])
+                    i += k
+            w.close()
         else:
             w = mciipm.VbsWriter(f, blocked=blocked)
             for r in rs:
